@@ -15,7 +15,7 @@ EXPLANATION = (
     "pointer table is append-only outside trim/rollback (rollback by length is only sound then); (G2) emit_iter rolls back iff "
     "the error is MaxBufferSizeExceeded and reports NotAllRecordsWritten{count} with count = completed items; (S1) the header "
     "written by place.replace uses the four counts returned by the section emitters, and TC can stay clear only if neither the "
-    "input TC nor any of the three truncated flags is set; (T1) MessageResponse::encode limits UDP to the response EDNS payload "
+    "input TC nor any of the three truncated flags is set; (T1) MessageResponse::encode limits UDP to min(response EDNS payload, largest datagram: F36) "
     "or 512, other protocols to u16::MAX, the fallback to 512; Catalog advertises max(request payload, 512); "
     "ResponseHandle::send_response sends exactly the buffer returned by encode(self.protocol).")
 NOT_DECIDED = ("That the surviving records are a prefix per section and that the bytes decode to the same records - value properties; "
